@@ -101,7 +101,58 @@ func classifyPos(c *Ctx, p *tak.Position) {
 	}
 }
 
+// emitNewPlay: see the comment inside
+func emitNewPlay(c *Ctx) {
+	// a game from a PARTLY custom configuration (only the stones, only the capstones, both, neither), in which both
+	// sides place capstones until the reserve says no, then stones
+	size := 3 + c.R.Intn(6)
+	cfg := tak.Config{Size: size, BlackWinsTies: c.R.Chance(1, 4)}
+	switch c.R.Intn(4) {
+	case 0:
+		cfg.Capstones = 1 + c.R.Intn(4)
+	case 1:
+		cfg.Pieces = 2 + c.R.Intn(12)
+	case 2:
+		cfg.Pieces, cfg.Capstones = 2+c.R.Intn(12), 1+c.R.Intn(4)
+	}
+	q := tak.New(cfg)
+	var toks []string
+	for ply := 0; ply < 6+c.R.Intn(14); ply++ {
+		if over, _ := q.GameOver(); over {
+			break
+		}
+		var cand []tak.Move
+		for y := 0; y < size; y++ {
+			for x := 0; x < size; x++ {
+				if q.Top(x, y) == 0 {
+					cand = append(cand, tak.Move{X: int8(x), Y: int8(y)})
+				}
+			}
+		}
+		if len(cand) == 0 {
+			break
+		}
+		m := cand[c.R.Intn(len(cand))]
+		m.Type = tak.PlaceCapstone
+		if ply < 2 || c.R.Chance(1, 3) {
+			m.Type = tak.PlaceFlat
+		}
+		toks = append(toks, encMove(m))
+		if n, err := q.Move(m); err == nil {
+			q = n
+		} else {
+			// refused (no capstone left): the op line ends here on both sides; go on with a flat in the next line
+			break
+		}
+	}
+	out := c.Emit(fmt.Sprintf("newplay %d %d %d %d %s", cfg.Size, cfg.Pieces, cfg.Capstones, b2i(cfg.BlackWinsTies), strings.Join(toks, " ")))
+	c.Count("newplay.pieces" + strconv.Itoa(b2i(cfg.Pieces != 0)) + ".caps" + strconv.Itoa(b2i(cfg.Capstones != 0)) + "." + clip(out, 3))
+}
+
 func genC01(c *Ctx) {
+	for i := c.Scale(60, 6000); i > 0; i-- {
+		emitNewPlay(c)
+	}
 	n := c.Scale(1600, 160000)
 	for k := 0; k < n; k++ {
 		p := randomPosition(c.R)
@@ -599,6 +650,9 @@ func genC02(c *Ctx) {
 					c.Count("overstack")
 				}
 			}
+		}
+		if k%5 == 0 {
+			emitNewPlay(c)
 		}
 		if k%6 == 0 {
 			// a configuration obtained by editing another game's Config() (different board size)
